@@ -21,7 +21,7 @@ NA = {
  "C15": "pure function of a directory's contents; the statement has no fault, crash or history clause",
  "C17": "pure function of one fitted curve",
 }
-PENDING = {"C12": "4.5", "C16": "4.6", "C18": "4.7",
+PENDING = {"C16": "4.6", "C18": "4.7",
            "C19": "4.8", "C20": "4.9"}
 
 CHECKS = {
@@ -37,6 +37,9 @@ CHECKS = {
  "C10": dict(engine="curve-sim", cat="exploration", ref="DESIGN.md 4.4",
    text="twin-world simulation: one seeded op list of hold / pass / edit-in-place / pass-again scenarios over every mutable argument kind (parameter sets, step lists, option and method dictionaries, ranges, feature-name lists, force and sample arrays; with gcf_k, multi-pass ranges and plateau search) is executed by an aliasing caller and by a by-value caller; outcomes and full curve observations must be identical after every library call, and every argument must be unchanged by the call.",
    note="held objects = created-and-passed objects and return values of get_initial_fit_parameters(); reads of public attributes / fit_properties items are not 'returned objects'"),
+ "C12": dict(engine="hash-walk", cat="exploration", ref="DESIGN.md 4.5",
+   text="seeded one-thing-at-a-time walks (8-30 states) over curve data, pipeline, options, every fit-setting key, parameter attributes, 1-ulp single-sample perturbations, representation variants and don't-care edits on a live object; for every pair of states 'hash equal <=> the harness's own canonical form of the effective settings equal'; every state is also hashed on a fresh object that receives the stored settings in shuffled order and other representations; stored hash after fit_model == recomputed hash; sampled walks are re-executed in a fresh interpreter under another PYTHONHASHSEED. Which value pairs are visited is seeded sampling biased to encoder hazards - exploration, not enumeration.",
+   note="canonical form is independent of nanite's byte encoding; invalid setting combinations (fitter sanity checks raise) are outside the hash's domain; direct column edits by the harness drop results like a setting edit"),
 }
 
 
